@@ -16,7 +16,6 @@ import (
 	"strings"
 	"time"
 
-
 	"verif/vlib"
 	"verif/vsrv"
 	"verif/vsync"
@@ -25,34 +24,6 @@ import (
 func init() {
 	vlib.Register("C11", "model_checking", runC11)
 	vlib.Workers["c11"] = c11Worker
-}
-
-type c11Job struct {
-	Scenario string `json:"scenario"`
-	Bound    int    `json:"bound"`
-	MaxExec  int    `json:"max_exec"`
-	Replay   []int  `json:"replay,omitempty"`
-}
-
-type c11Viol struct {
-	Class    string   `json:"class"`
-	What     string   `json:"what"`
-	Schedule []int    `json:"schedule"`
-	Trace    []string `json:"trace"`
-	Repro    int      `json:"repro"` // times the schedule reproduced the violation out of 3
-}
-
-type c11Result struct {
-	Scenario   string         `json:"scenario"`
-	Executions map[string]int `json:"executions"` // per bound
-	Completed  int            `json:"completed_bound"`
-	Capped     bool           `json:"capped"`
-	Points     int            `json:"max_points"`
-	ExtBlocks  int            `json:"ext_blocks"`
-	Outcomes   map[string]int `json:"outcomes"`
-	Viol       []c11Viol      `json:"viol"`
-	Nondet     string         `json:"nondeterminism,omitempty"`
-	Err        string         `json:"err,omitempty"`
 }
 
 func c11RunOnce(sc c11Scenario, prefix []int) (*vsync.Execution, []string, string, error) {
@@ -341,67 +312,14 @@ func runC11(c *vlib.Ctx) {
 		jobs, names = []string{string(jb)}, []string{rf.Replay.Scenario}
 		c.Set("replayed", c.ReplayFile)
 	}
-	for _, s := range c11Scenarios() {
-		if c.ReplayFile != "" {
-			break
-		}
-		if only := os.Getenv("VERIF_C11_ONLY"); only != "" && !strings.HasPrefix(s.name, only) {
-			continue // debugging aid; registered commands never set it
-		}
-		b := bound
-		if strings.HasPrefix(s.name, "S4") {
-			b = bound - 1 // label operations have hundreds of scheduling points per request
-		}
-		jb, _ := json.Marshal(c11Job{Scenario: s.name, Bound: b, MaxExec: maxExec})
-		jobs = append(jobs, string(jb))
-		names = append(names, s.name)
-	}
-	vlib.JobTimeout = 40 * time.Minute
-	results := vlib.Pool("c11", nil, 16, jobs)
 	var states, transitions int64
-	for i, r := range results {
-		if r.Died {
-			if r.TimedOut {
-				c.Cap("watchdog on scenario " + names[i])
-			} else {
-				c.Violate("worker-death:"+names[i], fmt.Sprintf("scenario %s: worker died: %s", names[i], tail(r.Stderr, 1500)), nil)
-			}
-			continue
-		}
-		var res c11Result
-		if err := json.Unmarshal([]byte(r.Out), &res); err != nil {
-			c.Violate("harness:result", trunc(r.Out, 300), nil)
-			continue
-		}
-		if res.Err != "" {
-			c.Violate("harness:"+names[i], res.Err, nil)
-			continue
-		}
-		n := 0
-		for _, k := range res.Executions {
-			n += k
-		}
-		states += int64(n)
-		transitions += int64(n * res.Points)
-		c.Eval(int64(n))
-		c.Set("scenario:"+names[i], map[string]interface{}{"executions_per_bound": res.Executions, "completed_preemption_bound": res.Completed, "capped": res.Capped, "max_scheduling_points": res.Points, "outcomes": res.Outcomes, "threads_blocked_outside_model": res.ExtBlocks, "nondeterminism": res.Nondet})
-		if res.Capped {
-			c.Cap(fmt.Sprintf("%s: execution cap reached; preemption bound %d completed", names[i], res.Completed))
-		}
-		for o := range res.Outcomes {
-			c.Outcome(names[i] + ":" + o)
-		}
-		for k := 0; k < n; k++ {
-			c.NontrivialDistinct(1)
-		}
-		for _, v := range res.Viol {
-			if v.Repro < 3 {
-				c.Add("unstable_violations_not_reported", 1)
-				c.Cap(fmt.Sprintf("%s: violation %s reproduced only %d/3 times under the same schedule", names[i], v.Class, v.Repro))
-				continue
-			}
-			c.Violate(names[i]+":"+v.Class, fmt.Sprintf("%s under schedule %v: %s | trace: %s", names[i], v.Schedule, v.What, trunc(strings.Join(v.Trace, " > "), 1500)), map[string]interface{}{"scenario": names[i], "schedule": v.Schedule, "trace": v.Trace})
-		}
+	if c.ReplayFile != "" {
+		states, transitions = c11Collect(c, "", names, vlib.Pool("c11", nil, 16, jobs))
+	} else {
+		states, transitions = c11Explore(c, func(name string) bool {
+			only := os.Getenv("VERIF_C11_ONLY") // debugging aid; registered commands never set it
+			return only == "" || strings.HasPrefix(name, only)
+		}, "", bound, maxExec)
 	}
 	if c.ReplayFile == "" && os.Getenv("VERIF_C11_ONLY") == "" {
 		rounds := 20
